@@ -7,14 +7,12 @@
 -/
 import Upnp.Proto
 import Upnp.Gen.C13Server
+import Upnp.Model.C13Consts
 import Upnp.Model.C13Run
 namespace Upnp.Drv.C13
 open Upnp Upnp.Proto Upnp.C13
 
-def consts : Consts :=
-  { mxCap := Gen.C13Server.mxCap, jitterLo := Gen.C13Server.jitterLo, jitterHiOff := Gen.C13Server.jitterHiOff,
-    guardTruthy := Gen.C13Server.guardTruthy, sendNowAlso := Gen.C13Server.sendNowAlso,
-    announceMs := Gen.C13Server.announceMs }
+def consts : Consts := genConsts
 
 def str (t : String) : Str := ((tokStr t).getD "?").toList
 def optStr (t : String) : Option Str := if t = "!" then none else some (str t)
